@@ -69,6 +69,9 @@ class Lock:
 # ---------------------------------------------------------------------------------------------
 # step 1: fact extractor
 
+MISSING_FACTS = ""
+
+
 def regenerate_facts():
     """Run the go/ast extractor over /repo and rewrite lean/DnsVerif/Generated/*.lean.
     Returns (ok, message)."""
@@ -82,7 +85,14 @@ def regenerate_facts():
     shutil.rmtree(tmp, ignore_errors=True)
     os.makedirs(tmp)
     rc, out = run([exe, os.path.join(REPO, "dnsrocks"), tmp])
-    if rc != 0:
+    global MISSING_FACTS
+    MISSING_FACTS = ""
+    if rc == 3:
+        # some facts could not be extracted: they are left out of the generated files, so exactly the
+        # Lean modules that use them stop building; a property that does not depend on them is not
+        # touched (its obligations still build against everything else the source says now)
+        MISSING_FACTS = "fact extraction failed (source shape not recognised):\n" + out
+    elif rc != 0:
         return False, "fact extraction failed (source shape not recognised):\n" + out
     # only rewrite files whose content changed so lake does not rebuild needlessly
     for name in os.listdir(gen_dir):
@@ -187,6 +197,8 @@ def proof_obligations(pid, tier):
             broken.setdefault(f"{os.path.relpath(path, LEAN)}:{th}", m.group(4)[:300])
         if not broken:
             broken["lake-build"] = out[-600:]
+        if MISSING_FACTS:
+            broken["fact-extractor"] = MISSING_FACTS[-1500:]
         res["broken"] = sorted(broken.items())
         # try to audit anyway what still builds: nothing (module failed) -> all undischarged
         return res
@@ -507,6 +519,9 @@ def decide(pid, cfg, args, workdir, t_start):
         tie_broken = []
         if not ok:
             tie_broken.append(("fact-extractor", msg[-1500:]))
+        for ln in (msg or "").splitlines():
+            if "NOT-RECOGNISED" in ln:
+                notes.append(ln.replace("verifextract: ", "fact extractor: "))
         if args.skip_proofs:
             rc, out = run(["lake", "build", f"drv_{pid}"], cwd=LEAN)
             po = {"obligations": ["skipped"], "discharged": ["skipped"], "broken": [], "axioms": set(), "log": out}
